@@ -1018,6 +1018,19 @@ func (rc *raftNode) processReady(rd raft.Ready) {
 		}
 	}
 	processedMsgs, hasRequestSnapMsg := rc.processMessages(rd.Messages)
+	// A replica that is its own quorum gets entries committed in the same Ready that still carries
+	// them as unstable. They must be in the WAL before the apply loop can see them, otherwise a write
+	// is answered to the client and then lost if the process dies before the save below.
+	persistedEarly := false
+	if raft.IsEmptySnap(rd.Snapshot) && shouldPersistBeforeApply(&rd) {
+		if err := rc.persistRaftState(&rd); err != nil {
+			rc.Errorf("raft save states to disk error: %v", err)
+			go rc.ds.Stop()
+			<-rc.stopc
+			return
+		}
+		persistedEarly = true
+	}
 	if len(rd.CommittedEntries) > 0 || !raft.IsEmptySnap(rd.Snapshot) || hasRequestSnapMsg {
 		var newPublished uint64
 		if !raft.IsEmptySnap(rd.Snapshot) {
@@ -1064,11 +1077,13 @@ func (rc *raftNode) processReady(rd raft.Ready) {
 
 	start := time.Now()
 	// TODO: save entries, hardstate and snapshot should be atomic, or it may corrupt the raft
-	if err := rc.persistRaftState(&rd); err != nil {
-		rc.Errorf("raft save states to disk error: %v", err)
-		go rc.ds.Stop()
-		<-rc.stopc
-		return
+	if !persistedEarly {
+		if err := rc.persistRaftState(&rd); err != nil {
+			rc.Errorf("raft save states to disk error: %v", err)
+			go rc.ds.Stop()
+			<-rc.stopc
+			return
+		}
 	}
 	cost := time.Since(start)
 	if cost >= raftSlow/2 {
@@ -1151,6 +1166,18 @@ func (rc *raftNode) processReady(rd raft.Ready) {
 	}
 	verifCrashPoint("rd.advance.before")
 	rc.node.Advance(rd)
+}
+
+// shouldPersistBeforeApply reports whether the committed entries of the Ready overlap its unstable
+// entries (index and term only grow), i.e. whether applying them now would run ahead of the WAL.
+func shouldPersistBeforeApply(rd *raft.Ready) bool {
+	if len(rd.CommittedEntries) == 0 || len(rd.Entries) == 0 {
+		return false
+	}
+	lastCommitted := rd.CommittedEntries[len(rd.CommittedEntries)-1]
+	firstUnstable := rd.Entries[0]
+	return lastCommitted.Term > firstUnstable.Term ||
+		(lastCommitted.Term == firstUnstable.Term && lastCommitted.Index >= firstUnstable.Index)
 }
 
 //should  atomically saves the Raft states, log entries and snapshots
